@@ -743,6 +743,7 @@ type FuncsCase struct {
 	Continuations, CommentsInside, BlanksInside int
 	TopBreaks, BreakAfterBackslash              int
 	MaxArgUses                                  int
+	MaxLine, MaxFlatLine                        int // longest physical line (bytes): layout files, flat files
 	CallsEarlier                                bool
 	Labels                                      []string
 	Obs                                         *pbt.Obs `json:"-"`
@@ -833,6 +834,19 @@ func buildFuncs(g *gctx, maxCtx int, cliPct int, statelessOnly bool) FuncsCase {
 		c.Files = append(c.Files, pbt.S(lay.file(sub)))
 		c.Flats = append(c.Flats, pbt.S(flatFile(sub)))
 	}
+	// physical lines: the longest line of the layout files and of the flat files
+	maxLine := func(files []pbt.S) int {
+		m := 0
+		for _, f := range files {
+			for _, ln := range strings.Split(string(f), "\n") {
+				if len(ln) > m {
+					m = len(ln)
+				}
+			}
+		}
+		return m
+	}
+	c.MaxLine, c.MaxFlatLine = maxLine(c.Files), maxLine(c.Flats)
 	c.Continuations, c.CommentsInside, c.BlanksInside = lay.continuations, lay.commentsIn, lay.blankIn
 	c.TopBreaks, c.BreakAfterBackslash = lay.topBreaks, lay.breakAfterBackslash
 	// dm: every definition under its identity; a body may be bound to a
@@ -1248,6 +1262,12 @@ func classifyFuncs(c FuncsCase) (bool, []string) {
 	add(c.BlanksInside > 0, "blank-line-inside-continuation")
 	add(c.TopBreaks > 0, "line-broken-between-top-level-pieces")
 	add(c.BreakAfterBackslash > 0, "continuation-right-after-escaped-backslash")
+	add(c.MaxLine > 4096, "physical-line>4096")
+	add(c.MaxFlatLine > 4096, "physical-line>4096:one-definition-per-line-files")
+	add(c.MaxLine > 4096 && c.Continuations > 0, "physical-line>4096:file-also-has-continuations")
+	add(c.MaxLine > 16384, "physical-line>16384")
+	add(c.MaxLine > 32768, "physical-line>32768")
+	add(c.MaxLine > 60000 || c.MaxFlatLine > 60000, "physical-line>60000(generator-bound-exceeded)")
 	add(c.MaxArgUses >= 2, "argument-used-twice")
 	add(c.CallsEarlier, "calls-earlier-definition")
 	add(len(c.Names) >= 3, "definitions>=3")
